@@ -657,6 +657,8 @@ def _consumers(model, rep):
         def skv_getattr(self, name):
             if name == "shape":
                 return (Poly.sym("nidx"), Poly.sym("nnz"))
+            if name == "dtype":
+                return ("dtype-of", self)
             raise Unsupported("term." + name)
 
     class Idx:
@@ -800,7 +802,7 @@ def _consumers(model, rep):
     def hook3(interp, name, args, kwargs, node):
         if name == "numpy.zeros":
             b = AccBuf()
-            log.append(("zeros", b, args))
+            log.append(("zeros", b, args, dict(kwargs)))
             return b
         return hook(interp, name, args, kwargs, node)
 
@@ -823,6 +825,21 @@ def _consumers(model, rep):
        "dense N-tensor accumulates data[k] at indices[:, k] for every k",
        fn.path, "COOData.toarray", "the dense conversion does not "
        "accumulate data[k] at indices[:, k] for every entry", fn.lineno)
+    zs = [x for x in log if x[0] == "zeros"]
+    dt = zs[0][3].get("dtype") if len(zs) == 1 else None
+    if dt is None and len(zs) == 1 and len(zs[0][2]) > 1:
+        dt = zs[0][2][1]
+    okd = dt == ("dtype-of", DATA) or (
+        isinstance(dt, tuple) and dt and dt[0] == "common-type"
+        and DATA in dt[1])
+    _v(rep, R2, okd, "COOData.toarray:result-array",
+       "the dense N-tensor is accumulated in an array of the data's type",
+       fn.path, "COOData.toarray",
+       f"the dense N-tensor is accumulated in np.zeros(shape"
+       f"{'' if dt is None else ', dtype=' + repr(dt)}): a float64 array "
+       f"whatever the data are - the imaginary part of a complex "
+       f"trilinear form is dropped (ComplexWarning at most), while the "
+       f"vector and matrix branches keep the type", fn.lineno)
 
 
 def _quadrature_guard(model, rep):
@@ -1178,6 +1195,10 @@ _AD = "skfem/autodiff/__init__.py"
 _CO = "skfem/assembly/form/coo_data.py"
 _FM = "skfem/assembly/form/form.py"
 MUTANTS = [
+    ("dense N-tensor accumulated in a float array",
+     ("skfem/assembly/form/coo_data.py",
+      "        out = np.zeros(self.shape, dtype=self.data.dtype)",
+      "        out = np.zeros(self.shape)"), "C01-R2"),
     ("interpolate counts its components through split()",
      (_AB, "        for c in range(len(self.basis[0])):\n            ref = "
       "self.basis[0][c].astuple",
@@ -1303,6 +1324,10 @@ MUTANTS = [
 ]
 _CO = "skfem/assembly/form/coo_data.py"
 TWINS = [
+    ("dense N-tensor allocated with a positional dtype",
+     ("skfem/assembly/form/coo_data.py",
+      "        out = np.zeros(self.shape, dtype=self.data.dtype)",
+      "        out = np.zeros(self.shape, self.data.dtype)")),
     ("dot multiplies in the other operand order",
      (_CO, "        y = self.data * x[self.indices[1]]",
       "        y = x[self.indices[1]] * self.data")),
